@@ -49,6 +49,7 @@ func checkC08(p *Prog, r *Report) {
 	// default or to nil), so a same-named context key cannot show through
 	ruleC08Steps(p, a, r)
 	ruleC08IndexIsInteger(p, a, r, res)
+	ruleC08Pure(p, r, res)
 	r.Begin("R-C08-MACRO-ANCHORS", "macro body executor found by role", 1)
 	if ma := resolveMacroAnchors(p, a, r); ma != nil {
 		r.Trivial("anchors", "-", "%d macro body executor(s)", len(ma.bodies))
@@ -606,5 +607,112 @@ func ruleC08IndexIsInteger(p *Prog, a *Anchors, r *Report, res *ssa.Function) {
 		} else {
 			r.Bad("resolve:Index:integer", p.InstrPos(c), "the index is %s without an IsInteger() test: Integer() yields 0 for nil, strings and everything else it cannot convert, so such a subscript silently selects the first element", p.VN(idx))
 		}
+	}
+}
+
+// mutableGlobals: package-level variables whose content can change after package initialisation: stored to outside
+// init, handed out by address (method calls on them, &g passed on), or a map/slice/pointer loaded from them written
+// through outside init. A variable that is only initialised and then loaded is a constant table.
+func mutableGlobals(p *Prog) map[*ssa.Global]string {
+	out := map[*ssa.Global]string{}
+	isInit := func(f *ssa.Function) bool {
+		t := topLevel(f)
+		return t.Name() == "init" || strings.HasPrefix(t.Name(), "init#")
+	}
+	for _, f := range p.Funcs {
+		if f.Blocks == nil || !p.InPkg(f) || isInit(f) {
+			continue
+		}
+		for _, b := range f.Blocks {
+			for _, in := range b.Instrs {
+				for _, op := range in.Operands(nil) {
+					g, ok := (*op).(*ssa.Global)
+					if !ok || g.Pkg != f.Pkg {
+						continue
+					}
+					switch x := in.(type) {
+					case *ssa.UnOp:
+						if x.Op == token.MUL {
+							// load: mutable if the loaded map/slice/pointer is written through here
+							for _, u := range refs(x) {
+								switch w := u.(type) {
+								case *ssa.MapUpdate:
+									if w.Map == ssa.Value(x) {
+										out[g] = "map updated in " + p.FuncName(f)
+									}
+								case *ssa.IndexAddr:
+									for _, uu := range refs(w) {
+										if st, isSt := uu.(*ssa.Store); isSt && st.Addr == ssa.Value(w) {
+											out[g] = "element stored in " + p.FuncName(f)
+										}
+									}
+								case *ssa.FieldAddr:
+									for _, uu := range refs(w) {
+										if st, isSt := uu.(*ssa.Store); isSt && st.Addr == ssa.Value(w) {
+											out[g] = "field stored in " + p.FuncName(f)
+										}
+									}
+								}
+							}
+							continue
+						}
+					case *ssa.Store:
+						if x.Addr == ssa.Value(g) {
+							out[g] = "stored in " + p.FuncName(f)
+						}
+						continue
+					case *ssa.FieldAddr:
+						onlyLoads := true
+						for _, u := range refs(x) {
+							if l, isL := u.(*ssa.UnOp); !isL || l.Op != token.MUL {
+								onlyLoads = false
+							}
+						}
+						if onlyLoads {
+							continue
+						}
+					}
+					if _, has := out[g]; !has {
+						out[g] = "address used in " + p.FuncName(f)
+					}
+				}
+			}
+		}
+	}
+	return out
+}
+
+// ruleC08Pure: what a path denotes is a function of the data it is resolved against: the resolver and the helpers it
+// is built from read no package-level state that changes at run time (a memo of earlier resolutions, a counter, a
+// switch). A lookup that consults such state can answer differently for the same data.
+func ruleC08Pure(p *Prog, r *Report, res *ssa.Function) {
+	r.Begin("R-C08-PURE", "the resolver and its helpers (static calls, depth 3) refer to no package-level variable that changes after initialisation: what a path denotes depends on the data only", 1)
+	mut := mutableGlobals(p)
+	n := 0
+	for _, fn := range clusterOf(p, res, 3) {
+		n++
+		seen := map[*ssa.Global]bool{}
+		bad := false
+		for _, b := range fn.Blocks {
+			for _, in := range b.Instrs {
+				for _, op := range in.Operands(nil) {
+					g, ok := (*op).(*ssa.Global)
+					if !ok || g.Pkg != fn.Pkg || seen[g] {
+						continue
+					}
+					seen[g] = true
+					if why, isMut := mut[g]; isMut {
+						bad = true
+						r.Bad(p.FuncName(fn)+":global "+g.Name(), p.InstrPos(in), "resolution consults %s, a package-level variable that changes at run time (%s): the same path on the same data can denote different values depending on what was resolved before", g.Name(), why)
+					}
+				}
+			}
+		}
+		if !bad {
+			r.OK(p.FuncName(fn)+":pure", p.Pos(fn.Pos()), "refers to no package-level variable that changes after initialisation (%d constant tables)", len(seen))
+		}
+	}
+	if n == 0 {
+		r.Bad("none", "-", "no resolver function analysed")
 	}
 }
